@@ -19,7 +19,7 @@ namespace
 struct Beh
 {
     std::uint64_t salt;
-    unsigned zero_pm, neg_pm, nonfinite_pm, huge_pm;
+    unsigned zero_pm, neg_pm, nonfinite_pm, huge_pm, denormal_pm;
     bool has_dist;
     T scale;
     T cut;
@@ -36,6 +36,8 @@ T value_fn(Beh const& b, CallEv<T>& e, Access<T>& a)
     if (e.kind == 2 && e.coords[0] < b.cut && (h & 4)) { count("zero_values_where_weight_is_not_finite"); return T(); }
     if (cls < b.zero_pm + b.nonfinite_pm) return (h & 1) ? std::numeric_limits<T>::quiet_NaN() : -std::numeric_limits<T>::infinity();
     if (cls < b.zero_pm + b.nonfinite_pm + b.neg_pm) return -base;
+    // denormal values (and products that become denormal) are finite values like any other
+    if (((h >> 44) % 1000) < b.denormal_pm) { count("denormal_values"); return std::numeric_limits<T>::min() * T(0.25) * (T(1) + T((h >> 50) % 7)); }
     // finite value whose product with the weight overflows (only where the freely readable VEGAS weight
     // guarantees it, so that no finite product has an overflowing square)
     if (e.kind == 1 && e.weight > T(2.5) && ((h >> 30) % 1000) < b.huge_pm) { count("finite_values_with_non_finite_product"); return std::numeric_limits<T>::max() / T(2); }
@@ -65,8 +67,10 @@ void judge_common(RunState& r, hep::plain_result<T> const& res, std::vector<LD> 
         ++nz;
         if (!std::isfinite((T)fw[i])) continue;     // the product as the library forms it in T
         ++fin;
-        LD v = (LD)(T)fw[i];
-        s.add(v); sa.add(std::fabs(v)); s2.add(v * v); s2a.add(v * v);
+        T vt = (T)fw[i];
+        T sq = vt * vt;                   // the square as formed in T (it may underflow for denormal values)
+        LD v = vt;
+        s.add(v); sa.add(std::fabs(v)); s2.add(sq); s2a.add(sq);
     }
     if (res.non_zero_calls() != nz) { viol("non_zero_calls", J(info).u("reported", res.non_zero_calls()).u("observed", nz)); return; }
     if (res.finite_calls() != fin) { viol("finite_calls", J(info).u("reported", res.finite_calls()).u("observed", fin)); return; }
@@ -248,6 +252,7 @@ void run_case(Rng& rng, std::uint64_t idx)
     if (beh.zero_pm + beh.neg_pm + beh.nonfinite_pm > 1000) beh.neg_pm = 0;
     beh.has_dist = rng.below(2);
     beh.huge_pm = rng.below(2) == 0 ? 100 : 0;
+    beh.denormal_pm = rng.below(3) == 0 ? 150 : 0;
     beh.cut = rng.below(2) ? T() : T(0.2);
     beh.scale = std::ldexp(T(1), int(rng.below(20)) - 10);
     RunState st;
